@@ -215,7 +215,13 @@ fn parse_intermediate_ref_data(
 
     let filtered_tokens: SmallVec<[Token; 3]> = inner_slice
         .iter()
-        .filter(|t| !matches!(t.kind, T![ws] | T![block comment]))
+        // a step can be wrapped here too, the line break is blank space
+        .filter(|t| {
+            !matches!(
+                t.kind,
+                T![ws] | T![newline] | T![line comment] | T![block comment]
+            )
+        })
         .copied()
         .collect();
 
